@@ -592,6 +592,17 @@ def run(ctx):
     if k < 2:
         raise AnalysisError('C11.R7 found only %d awaited application '
                             'coroutines on the transport-loss path' % k)
+    ctx.rule('C04.R2', 'a client is marked as disconnecting once: the mark '
+             'and the handler are dominated by a true connected-test on the '
+             'same (sid, namespace); a second mark of a client that is '
+             'already being disconnected leaves a pending_disconnect entry '
+             'that nothing removes (shared rule)', floor=12)
+    ctx.rule('C04.R1', 'asyncio: no suspension between test and mark '
+             '(shared rule)', floor=2)
+    from .c04 import r1_r2_site
+    for fam in SA:
+        for fname in ('disconnect', '_handle_disconnect'):
+            r1_r2_site(ctx, fam, fname)
     ctx.rule('C11.R3', 'emptied rooms / namespaces / pending lists are '
              'collected', floor=3)
     r3_collect(ctx)
